@@ -98,6 +98,9 @@ func c12Pay(c *fw.Ctx, i int) {
 		if extra < 0 {
 			extra = 0
 		}
+		if mtu >= 1000 && r.Chance(1, 40) {
+			extra = r.Pick(65535, 65536, 65537, 70000, 131073) // frames beyond 64 KiB
+		}
 		frame := append(append([]byte{}, hb...), r.Bytes(extra)...)
 		if flex && r.Bool() {
 			frame = r.Bytes(r.Range(1, 3*mtu)) // flexible mode does not look at the frame
